@@ -61,7 +61,8 @@ def render(lines, style=0):
             for j in range(n):
                 out.append(f"int tok_{i}_{j};")
         elif k == "Def":
-            out.append(f"#define {l[1]}" + ("" if l[2] == "E" else f" {l[2]}"))
+            v = l[2]
+            out.append(f"#define {l[1]}" + ("" if v == "E" else (f" {v[1]}" if isinstance(v, list) else f" {v}")))
         elif k == "Undef":
             out.append(f"#undef {l[1]}")
         elif k == "Other":
@@ -252,6 +253,41 @@ def gen_items(rng, depth, budget):
     return out
 
 
+def inject_alias(rng, lines):
+    """A macro defined as another identifier, a condition on it, a redefinition of the OTHER macro,
+    and the textually identical condition again: #define/#undef must take effect in source order
+    also through an alias (a cached condition value must not survive)."""
+    a, b = rng.sample(VALS, 2)
+    cond = rng.choice([["Val", a], ["Eq", a, rng.choice([0, 1, 2])], ["Gt", a, rng.choice([0, 1])]])
+    k1, k2 = rng.sample([0, 1, 2, 3], 2)
+    blk = [["Undef", a], ["Def", a, ["R", b]], ["Undef", b]]
+    if rng.random() < 0.8:
+        blk += [["Def", b, k1]]
+    test = [["If", cond], ["Code"]] + ([["Else"], ["Code"]] if rng.random() < 0.5 else []) + [["Endif"]]
+    blk += test
+    r = rng.random()
+    if r < 0.6:
+        blk += [["Undef", b], ["Def", b, k2]]
+    elif r < 0.8:
+        blk += [["Undef", b]]
+    else:
+        blk += [["Undef", a], ["Def", a, k2]]
+    blk += [list(x) for x in test]
+    # splice at a top-level position
+    depth, tops = 0, [0]
+    for i, l in enumerate(lines):
+        if l[0] == "If":
+            depth += 1
+        elif l[0] == "Endif":
+            depth -= 1
+            if depth == 0:
+                tops.append(i + 1)
+        elif depth == 0:
+            tops.append(i + 1)
+    p = rng.choice(tops)
+    return lines[:p] + blk + lines[p:]
+
+
 def gen_env(rng):
     env = []
     for m in FLAGS:
@@ -334,6 +370,12 @@ CORPUS_EXTRA = [
     [[["If", ["Defd", "F0"]], ["Code"], ["Elif", ["Bad"]], ["Code"], ["Else"], ["Code"], ["Endif"]], [["F0", "E"]]],
     # malformed #if inside a skipped group
     [[["If", ["Const", 0]], ["If", ["Bad"]], ["Code"], ["Endif"], ["Endif"]], []],
+    # an alias: the second, textually identical condition sees the redefinition of the aliased macro
+    [[["Def", "V1", ["R", "V0"]], ["If", ["Gt", "V1", 1]], ["Code"], ["Endif"], ["Undef", "V0"], ["Def", "V0", 0],
+      ["If", ["Gt", "V1", 1]], ["Code"], ["Else"], ["Code"], ["Endif"]], [["V0", 2]]],
+    # alias cycle and self-reference: the name survives expansion and counts as 0
+    [[["Def", "V0", ["R", "V1"]], ["Def", "V1", ["R", "V0"]], ["If", ["Val", "V0"]], ["Code"], ["Else"], ["Code"], ["Endif"],
+      ["Def", "V2", ["R", "V2"]], ["If", ["Eq", "V2", 0]], ["Code"], ["Endif"]], []],
 ]
 
 MALFORMED = [
@@ -368,6 +410,8 @@ class C01(Check):
         n = 400 if self.tier == "quick" else 6000
         for _ in range(n):
             lines = normalise(gen_items(self.rng, 0, 60))
+            if self.rng.random() < 0.3:
+                lines = normalise(inject_alias(self.rng, lines))
             out.append([lines, gen_env(self.rng)])
         bound = 4 if self.tier == "quick" else 6
         for k in range(1, bound + 1):
@@ -410,7 +454,8 @@ class C01(Check):
         text, node_lines = render(lines, style=len(lines))
         f = root / "main.c"
         f.write_text(text)
-        defines = [m if v == 1 and (len(m) + len(lines)) % 2 else (f"{m}=" if v == "E" else f"{m}={v}") for m, v in env]
+        defines = [m if v == 1 and (len(m) + len(lines)) % 2 else
+                   (f"{m}=" if v == "E" else (f"{m}={v[1]}" if isinstance(v, list) else f"{m}={v}")) for m, v in env]
         created = []
 
         class Capturing(cbplatform.Platform):
@@ -438,7 +483,7 @@ class C01(Check):
         envd = []
         for name, mac in created[-1]._definitions.items():
             s = " ".join(str(t) for t in mac.replacement)
-            envd.append([name, "E" if s == "" else int(s)])
+            envd.append([name, "E" if s == "" else (int(s) if s.lstrip("-").isdigit() else ["R", s])])
         return ["Ok", marks, sorted(envd)]
 
     @staticmethod
@@ -501,7 +546,10 @@ class C01(Check):
         problems = []
         cases = []
         for _ in range(n):
-            cases.append([normalise(gen_items(rng, 0, 40)), gen_env(rng)])
+            ls = normalise(gen_items(rng, 0, 40))
+            if rng.random() < 0.4:
+                ls = normalise(inject_alias(rng, ls))
+            cases.append([ls, gen_env(rng)])
         answers = common.run_model("C01", [self.encode(c) for c in cases])
         d = common.scratch() / "gcc"
         d.mkdir(exist_ok=True)
